@@ -1026,9 +1026,12 @@ func (l *c07Live) finish() {
 		}
 	} else {
 		l.state = c07Snapshot(l.root)
-		if after := c07CountFDs(); after > l.fdBefore {
+		if left := fdsUnder(l.root); len(left) > 0 {
+			l.relBad = fmt.Sprintf("files of the served tree still open after Serve returned: %v", left)
+		} else if after := c07CountFDs(); after > l.fdBefore+8 {
 			l.relBad = fmt.Sprintf("/proc/self/fd has %d entries after Serve returned, %d before the session: files left open", after, l.fdBefore)
 		}
+		gcOn()
 	}
 }
 
@@ -1086,6 +1089,7 @@ func c07Exec(cfg c07Cfg, stream []byte, lock []c07Frame, bound int, firstBad str
 		if root != "" {
 			c07SeedTree(root)
 			l.fdBefore = c07CountFDs()
+			gcOff()
 		}
 		body := func() { l.drive(stream, lock) }
 		judge := func(e *vsched.Exec) explore.Verdict {
